@@ -107,6 +107,20 @@ def build_traces(path, tier, seed):
             shift = float(np.round(shift)) if abs(shift) < top / 4 else 3.0
         d = pc.determine_peaks_only_delta_series(argi)
         p = pc.determine_pseudo_cyclic_peak_only_series(argi)
+        if i % 6 == 4 and not np.any(np.diff(x) == 0):
+            # plateau-free series through the cleaned-data entry point, also as counts in (unsigned) narrow integer types
+            if i % 12 == 4 and n < 400:
+                dt_ = [np.int8, np.uint8, np.int16, np.uint16][int(rng.integers(4))]
+                ii = np.iinfo(dt_)
+                xi_ = rng.integers(ii.min, ii.max + 1, size=n)
+                xi_ = xi_[np.insert(np.diff(xi_) != 0, 0, True)]
+                if len(xi_) >= 2:
+                    argi = xi_.astype(dt_)
+                    x = np.asarray(argi, dtype=float)
+                    n = len(x)
+                    shift = 3.0
+                    p = pc.determine_pseudo_cyclic_peak_only_series(argi)
+            d = pc.determine_peak_only_delta_series_4_cleaned_data(argi)
         dsh = pc.determine_peaks_only_delta_series(x + shift)
         psh = pc.determine_pseudo_cyclic_peak_only_series(x + shift)
         tid += 1
